@@ -6,7 +6,7 @@
 // ASSUME: reference model: a multiset; pop()/top() yield a minimum; remove(x) reports whether x was present, removes at least one and (if x is not the minimum) every copy of x -- the header does not say which, other elements are untouched; pop()/top() are called on non-empty heaps only
 // ASSUME: multiset equality is checked for a universally quantified probe value: count(p) in the container equals count(p) in the model for every p
 // ASSUME: ThreadSafe* containers are driven from one thread (SimpleLock never contended)
-// OB: ob_minheap_step tier=quick unwind=8 unwindset=g__ZNSt6vectorIiSaIiEE17_M_realloc_insertIJRKiEEEvN9__gnu_cxx17__normal_iteratorIPiS1_EEDpOT_.4:22,g__ZNSt6vectorIiSaIiEE17_M_realloc_insertIJRKiEEEvN9__gnu_cxx17__normal_iteratorIPiS1_EEDpOT_.5:22 timeout=120 params=6,6,2 bounds="MinHeap<int,less,std::vector<int>>: arbitrary heap-ordered pre-state of n=p1 in 0..5 symbolic values, spare capacity 0/2, ONE op of 6 kinds {push, pop, remove(symbolic), top+find(symbolic), clear, push_back/insert aliases}; result, size/empty, heap order and multiset of the post-state" desc="min-heap: one step from an arbitrary heap equals a multiset model"
+// OB: ob_minheap_step quick_limit=24 tier=quick unwind=8 unwindset=g__ZNSt6vectorIiSaIiEE17_M_realloc_insertIJRKiEEEvN9__gnu_cxx17__normal_iteratorIPiS1_EEDpOT_.4:22,g__ZNSt6vectorIiSaIiEE17_M_realloc_insertIJRKiEEEvN9__gnu_cxx17__normal_iteratorIPiS1_EEDpOT_.5:22 timeout=120 params=6,6,2 bounds="MinHeap<int,less,std::vector<int>>: arbitrary heap-ordered pre-state of n=p1 in 0..5 symbolic values, spare capacity 0/2, ONE op of 6 kinds {push, pop, remove(symbolic), top+find(symbolic), clear, push_back/insert aliases}; result, size/empty, heap order and multiset of the post-state" desc="min-heap: one step from an arbitrary heap equals a multiset model"
 // OB: ob_minheap_sort tier=quick unwind=20 timeout=120 params=5,2 bounds="MinHeap (p1=0, std::vector) / ThreadSafeMinHeap (p1=1, Pow_2_BlockAllocator) of int: push k=p0 in 0..4 symbolic values then pop all" desc="min-heap: pop order is sorted order and the popped multiset equals the pushed one"
 // OB: ob_minheap_range_ctor tier=quick unwind=18 timeout=120 params=5 bounds="MinHeap<int,less,std::vector<int>>(first,last) from k=p0 in 0..4 symbolic values; top() and the pop sequence" desc="min-heap: range constructor yields a heap whose top is the minimum"
 // OB: ob_minheap_remove_empty tier=quick unwind=8 timeout=120 params=2 bounds="MinHeap<int,less,std::vector<int>>: remove(x) on an empty heap (p0=0 never used, p0=1 used and cleared)" desc="min-heap: remove on an empty heap returns false"
